@@ -120,7 +120,12 @@ func main() {
 	if thorough {
 		levels = append(levels, zapcore.DebugLevel, zapcore.FatalLevel, zapcore.Level(-128))
 	}
-	ents := encx.EntVariants(levels)
+	var ents []encx.Ent
+	for _, e := range encx.EntVariants(levels) {
+		if e.Message != "" { // an empty column value makes "joined by the separator" ambiguous (see assumptions)
+			ents = append(ents, e)
+		}
+	}
 	leaves := encx.Leaves(true)
 	var dur *encx.Spec
 	for _, lf := range leaves {
